@@ -48,18 +48,59 @@ def run(tier):
     c = lrcheck.prepare(gs)
     cobl, cdis, failing = lrcheck.certify(PROP, rep, c, parts=("valid", "productive"), name="c05cert")
     cases = c04.gen_cases(c, r, 12 if tier == "quick" else 40)
-    dec, nbad = lrcheck.correspond(PROP, rep, c, cases, make_judge(c), "c05")
+    nbad = 0
+    # recovery grammars: the lists reported inside ErrorRecovery values and when recovery fails (taken at the
+    # stack where the token was rejected, before the reductions on `!`); decided by the model correspondence
+    # and by the structural clauses, on all short token strings
+    gr = [g for g in gram.corpus() if g.recovery]
+    c2 = lrcheck.prepare(gr, modes=("lane", "lr1") if tier == "quick" else ("lane", "lr1", "lalr"))
+    cobl2, cdis2, failing2 = lrcheck.certify(PROP, rep, c2, parts=("shape", "exact", "terminates"), name="c05rcert")
+    cases2 = []
+    for e in c2.ok:
+        g = e["g"]
+        if e["start"] not in g.min_height():
+            continue
+        tn = {x: i for i, x in enumerate(e["t"]["tnames"])}
+        for w in lrcheck.short_strings(g, 3 if tier == "quick" else 5, cap=(160 if tier == "quick" else 4000)):
+            items, pos = [], 1
+            for i, wd in enumerate(w):
+                items.append(("k", tn['"%s"' % wd], i + 1, pos, pos + 1)); pos += 2
+            cases2.append((e["tid"], items, [], {}))
+
+    def judge2(case, d):
+        lists = []
+        if d["kind"] == "err" and "expected" in d.get("err", {}):
+            lists.append(d["err"]["expected"])
+
+        def walk(t):
+            if "err" in t and "expected" in t["err"]:
+                lists.append(t["err"]["expected"])
+            for k in t.get("kids", []):
+                walk(k)
+        if d["kind"] == "ok":
+            walk(d["tree"])
+        e = c2.ok[int(case[0][1:])]
+        for exp in lists:
+            if len(set(exp)) != len(exp):
+                return ("duplicate-expected", "an expected list contains duplicates: %r" % exp)
+            if any(x >= len(e["t"]["terminals"]) for x in exp):
+                return ("error-terminal-expected", "an expected list names the error pseudo-terminal")
+        return None
+    dec2, nbad2 = lrcheck.correspond(PROP, rep, c2, cases2, judge2, "c05r")
+    lrcheck.report_cert_failures(PROP, rep, c2, failing2, bool(rep.viol), judge2, r)
+    cobl += cobl2; cdis += cdis2; nbad += nbad2
+    dec, nbad0 = lrcheck.correspond(PROP, rep, c, cases, make_judge(c), "c05"); nbad += nbad0
     lrcheck.report_cert_failures(PROP, rep, c, failing, bool(rep.viol), make_judge(c), r)
     errs = [(x, d) for x, d in zip(cases, dec) if d["kind"] == "err" and "expected" in d["err"]]
     reduced_first = 0
     distinct = len({(x[0], tuple(i[1] for i in x[1])) for x, d in errs if len(d["err"]["expected"]) >= 1})
-    cov = {"obligations": nobl + cobl + len(cases), "discharged": ndis + cdis + len(cases) - nbad,
+    cov = {"obligations": nobl + cobl + len(cases) + len(cases2), "discharged": ndis + cdis + len(cases) + len(cases2) - nbad,
            "checker_cmd": "make -C coq; coqc Props/C05.v; coqc .cache/cases/c05cert/*.v; coqc .cache/cases/c05/*.v",
            "trusted_base": vlib.TRUSTED_COMMON + ["tools/lrtab.py", "harness/src/bin/drv.rs", "tools/gram.py Earley oracle (judge only)"],
            "theorems": names, "certificates": {"checked": cobl, "valid": cdis},
-           "evaluations": len(cases), "distinct_nontrivial": distinct,
-           "rule": "as C04 (rejected inputs incl. unknown tokens); non-trivial = an error with a non-empty expected list, distinct by (table, terminal string)",
-           "distribution": {"errors_with_expected": len(errs), "tables": len(c.ok),
+           "evaluations": len(cases) + len(cases2), "distinct_nontrivial": distinct,
+           "rule": "recovery corpus grammars x all token strings up to length 3 (quick) / 5 (thorough): every expected list in the result (final error, error nodes) vs the model, no duplicates, never the error terminal; and, without recovery, as C04 (rejected inputs incl. unknown tokens); non-trivial = an error with a non-empty expected list, distinct by (table, terminal string)",
+           "distribution": {"errors_with_expected": len(errs), "tables": len(c.ok), "recovery_tables": len(c2.ok), "recovery_inputs": len(cases2),
                             "expected_sizes": {str(k): sum(1 for _, d in errs if len(d["err"]["expected"]) == k) for k in range(0, 8)}},
            "samples": [dict(lrcheck.case_desc(c, x), implementation=d) for x, d in errs[:2]]}
     for s in cov["samples"]:
